@@ -157,6 +157,13 @@ def roundtrip_case(ctx, rng, wd, i):
     cols = sorted(rng.choice(np.arange(3, ncols_total + 1), size=k, replace=False).tolist()) if rng.random() < 0.7 else \
         rng.choice(np.arange(3, ncols_total + 1), size=k, replace=False).tolist()
     cols = [int(c) for c in cols]
+    if ncols_total - 2 >= 2 and rng.random() < 0.4:
+        # history: the same file read immediately before for ANOTHER column list (other columns / the same in another order)
+        other = [int(c) for c in rng.permutation(np.arange(3, ncols_total + 1))[: max(1, k)]]
+        if other == cols:
+            other = other[::-1] if len(other) > 1 else [3 + (other[0] - 2) % (ncols_total - 2)]
+        ctx.call("read_lammps_vector/prior_call", read_lammps_vector_wrapper, path, d, other, data=lambda: {**info(), "columnsids": other})
+        ctx.count("prior_call_one_argument_changed")
     if via_class:
         def go2():
             r = DumpReader(path, ndim=d, filetype=DumpFileType.LAMMPSVECTOR, columnsids=cols)
@@ -273,6 +280,12 @@ def centertype_case(ctx, rng, wd, i):
     ctx.case(f"centertype/{d}D/{coord}", text, moltypes, nontrivial=N >= 2,
              sample={"d": d, "coord": coord, "moltypes": moltypes, "N": N, "frames": nframes})
     key = f"read_lammps_centertype/{coord}"
+    if rng.random() < 0.4 and len(moltypes) >= 1:
+        # history: the same file read immediately before with ANOTHER type map (values exchanged / one key dropped)
+        ks = list(moltypes)
+        other = {k_: moltypes[ks[(j_ + 1) % len(ks)]] + (1 if len(ks) == 1 else 0) for j_, k_ in enumerate(ks)}
+        ctx.call(key + "/prior_call", read_lammps_centertype_wrapper, path, d, other, data=info)
+        ctx.count("prior_call_one_argument_changed")
     if i % 3 == 0:
         def go():
             r = DumpReader(path, ndim=d, filetype=DumpFileType.LAMMPSCENTER, moltypes=dict(moltypes))
